@@ -217,7 +217,7 @@ CLAIMED = {
             "not claimed.",
             "§5 C02"),
     "C05": ("proof",
-            "Lean 4 theorems (view offset arithmetic = encoding layout; scope skipping; exact-key lookup; merge keeps fields) + correspondence + view-vs-memory predicate",
+            "Lean 4 theorems (view offset arithmetic = encoding layout; scope skipping; exact-key lookup; view = parsed PSBT for every accepted byte string in every reader mode; write_to = merge-then-compress in memory, byte level and parse level) + correspondence + view-vs-memory predicate",
             "Props/C05.lean proves for every unsigned transaction, every pair list and every stream prefix/suffix: the counts and "
             "offsets GlobalTransactionView computes (1/3/5/9-byte prefixes), vin(i) / vout(j) by 41-byte strides and output "
             "skipping, locktime and version equal the transaction's; _skip_scope moves exactly over one scope; a value lookup "
@@ -227,11 +227,26 @@ CLAIMED = {
             "suffix, the view opens and reports the same version, counts, locktime, tx version, vin/vout and the same input/output "
             "scopes as the parsed PSBT — version 0 (view_refines_parse_v0_partial, excluding v0 streams that carry the v2-only count "
             "keys 04/05, with witnesses that the view misreads those) and version 2 (view_refines_parse_v2_partial, requiring both "
-            "count keys, with a witness that the view refuses a stream without them). Each run opens "
-            "generated PSBTs through PSBTView at random stream offsets in all three modes and compares everything it reports and "
-            "writes (with extra signature/derivation streams) with the Lean model and, independently, with the fully parsed "
-            "in-memory PSBT (merge-then-compress). Partial: write_to_eq_memory is a GOAL decided by the view-vs-memory predicate and "
-            "correspondence only; 'same signatures' is covered in C02.",
+            "count keys, with a witness that the view refuses a stream without them); Proofs/ViewFrame.lean re-proves this "
+            "refinement for every reader mode (compress 0/1/2) with offset and first_scope of the view exposed. Props/C05Y.lean "
+            "proves the write path for PSBTView.write_to with LISTS of extra input / output streams (View.writeToL; the one-stream "
+            "View.writeTo behind the `view.write` op is shown to be its special case): (1) write_to_eq_memory_v0/v2_partial — for "
+            "every accepted byte string, stream offset, reader mode, write mode and stream lists, the view writes the original "
+            "global scope byte-for-byte followed by the serialised scopes of the PSBT merged (update with the next scope of every "
+            "extra stream) and compressed (clear_metadata) in memory, and refuses exactly when the in-memory procedure refuses; "
+            "(2) write_to_parses_to_memory_v0/v2_partial — PSBT.parse of what was written IS the in-memory result (every field of "
+            "every scope and the global fields), resting on a proved write-then-read round trip for every scope object that was "
+            "read from bytes, merged and cleared (invariant InScope.Canon / OutScope.Canon, closed under read_value, update, "
+            "clear_metadata). For version 0 the reader takes txid/vout/sequence (value/script) from the unchanged global "
+            "transaction, so (2) is stated for restoreTx and equals the in-memory PSBT exactly when the merge left those fields "
+            "alone (sameTxFields); witness v0_extra_txid_not_written (an extra stream with a v2-only previous-txid key changes the "
+            "in-memory transaction but not the written one; replayed on embit). Each run opens generated PSBTs through PSBTView at "
+            "random stream offsets in all three modes and compares everything it reports and writes (0-3 extra streams of each "
+            "kind incl. truncated ones, ops view.write / view.writel) with the Lean model, the in-memory procedure (psbt.merge) "
+            "with embit's parse+update+clear_metadata+serialize, and evaluates the byte-level and parse-level statements on embit "
+            "itself. (1) and (2) hold for every reader mode of the view; in the memory-saving modes 1/2 an in-memory scope also holds "
+            "the streamed _utxo/_txhash attributes, which write_to never emits, so there (2) is stated for eraseHidden (the merged "
+            "PSBT without them). 'Same signatures' is covered in C02.",
             "Trusted: Lean kernel + propext/Quot.sound/Classical.choice; harness generators; BytesIO seek/read semantics as "
             "modelled (seek past the end allowed).",
             "§5 C05"),
@@ -314,14 +329,29 @@ CLAIMED = {
             "standard one rests on the correspondence with hashlib and the published vectors, not on a theorem.",
             "§5 C15"),
     "C01": ("proof",
-            "Lean 4 theorems (model digest = consensus digest for all tx/index/flag/hash function) + correspondence on 3 entry points",
+            "Lean 4 theorems (model digest = consensus digest for all tx/index/flag/hash function; PSBTView streaming digests = in-memory digests; PSBTView.sighash = PSBT.sighash = consensus digest under the dispatched script code) + correspondence on 3 entry points",
             "Props/C01.lean proves for every transaction, input index, script code, amount and every SHA-256 replacement that the "
             "model's legacy digest equals Satoshi's algorithm (serialise the modified copy + hash type; uint256 ONE for SINGLE without "
             "output), the segwit digest equals BIP143 and the taproot digest equals BIP341 SigMsg/TapSighash incl. annex, leaf "
             "version, codeseparator position and the error cases, for all 8 (7 for taproot) flags; invalid flags/indices are refused. "
-            "Each run ties the model to embit by comparing Transaction, PSBT (v0/v2, parsed and constructed) and PSBTView (v0/v2 at "
-            "stream offsets) digests with the Lean model and, independently, with the Lean consensus spec on generated transactions x "
-            "all indices x all flags. Partial: the PSBT.sighash script-type dispatch is covered by correspondence in C02, not yet by a theorem.",
+            "Props/C01X.lean proves the PSBT-level entry points: Model.Psbt.sighash (PSBT.sighash: dispatch + Transaction methods on "
+            "PSBT.tx) and Model.View.sighash / sighashLegacy / sighashSegwit / sighashTaproot (PSBTView's own streaming copies: "
+            "hash_prevouts / hash_sequence / hash_outputs over vin(i) / vout(j) read at offsets) — (1) the view's three digests "
+            "equal the Transaction digests whenever its accessors describe the transaction, for every index, flag and argument "
+            "incl. refusals; (2) entry_points_agree_v0/v2_partial: for every byte string PSBT.parse accepts (any reader mode), "
+            "embedded at any stream offset, PSBTView.sighash = PSBT.sighash for every input, flag and taproot argument (excluded: "
+            "the regions of C05X, and for version 2 scopes lacking their transaction fields; witness v0_count_key_sighash_differs "
+            "replayed on embit); (3) psbt_sighash_legacy/segwit/taproot_consensus and all_entry_points_*: what all three entry "
+            "points yield is the consensus digest of PSBT.tx under the script code Model.sighashDispatch selects (composition with "
+            "the dispatch_* theorems of Props/C02: p2wpkh_all_entry_points, p2pkh_all_entry_points). Finding fixed on the way "
+            "(C01X-D46): a PSBTv2 without PSBT_GLOBAL_TX_VERSION was hashed with nVersion 2 by PSBT.sighash and 0 by "
+            "PSBTView.sighash. Each run ties the model to embit by comparing Transaction, PSBT (v0/v2, parsed and constructed) and "
+            "PSBTView (v0/v2 at stream offsets) digests with the Lean model and, independently, with the Lean consensus spec on "
+            "generated transactions x all indices x all flags, and PSBT.sighash / PSBTView.sighash (reader modes 0/1/2, taproot "
+            "kwargs, PSBTs with inputs of every script type, v2 without tx version, arbitrary field combinations) with "
+            "psbt.sighash / view.sighash / view.sighash.{legacy,segwit,taproot} and with the consensus spec for the input kind the "
+            "generator built. Boundary: Model.Psbt.sighash refuses when some scope lacks its transaction fields (PSBT.tx undefined) "
+            "whereas Python fails only if the algorithm touches that input; not exercised (BIP370 requires the fields).",
             "Trusted: Lean kernel + propext/Quot.sound/Classical.choice; harness generators; CPython/hashlib; my transcription of "
             "Core's SignatureHash/BIP143/BIP341 in Spec/Consensus.lean (corroborated by embit's recorded signing vectors in C02). "
             "Digest memoisation across calls is C19's subject.",
